@@ -183,15 +183,18 @@ func (e *Encoder) writeValue(val reflect.Value, tagType byte) error {
 
 	case TagString:
 		var str []byte
+		var isTextMarshaler bool
 		if val.NumMethod() > 0 && val.CanInterface() {
 			if t, ok := val.Interface().(encoding.TextMarshaler); ok {
+				isTextMarshaler = true
 				var err error
 				str, err = t.MarshalText()
 				if err != nil {
 					return err
 				}
 			}
-		} else {
+		}
+		if !isTextMarshaler {
 			str = []byte(val.String())
 		}
 		if err := writeInt16(e.w, int16(len(str))); err != nil {
